@@ -3,6 +3,7 @@ import NbioVerif.Lemmas.C08Glue
 import NbioVerif.Lemmas.C08Engine
 import NbioVerif.Lemmas.C06Chain
 import NbioVerif.Lemmas.BodyReader
+import NbioVerif.Lemmas.BodyOwn
 /-! C08: parser robustness and bounds (model level).
 
 * `c08_no_hang`        the Go-shaped index loop never runs out of fuel (fuel = |buf|+1), i.e. the
@@ -419,5 +420,20 @@ theorem c08_body_reader_bound (maxBody : Nat) (hm : maxBody > 0) (ops : List Op)
       rw [hw'.left_eq, hc', List.length_drop]
       have := hw.left_eq
       omega
+
+/-- C08 (BodyReader and its allocator): along every program of appends, reads and closes — any order, any sizes, any
+    allocator capacities, appends after `Close` included — every buffer identity is returned to the allocator at most
+    once, only identities the allocator handed out are returned, none is handed out twice, and nothing the reader
+    still holds has been returned (no use after free through `Read` / `RawBodyBuffers`). -/
+theorem c08_body_free_once (maxBody : Nat) (ops : List Op2) :
+    let s := ops.foldl (step2 maxBody) ({}, [])
+    (freesOf s.2).Nodup ∧ (∀ i ∈ freesOf s.2, i ∈ mallocsOf s.2) ∧ (mallocsOf s.2).Nodup ∧
+      (∀ i ∈ ids s.1, i ∉ freesOf s.2) :=
+  free_once maxBody ops
+
+/-- C08 (BodyReader): the first `Close` returns everything the reader holds -/
+theorem c08_body_close_releases (br : BR) (hc : br.closed = false) :
+    freesOf (close br).2 = ids br ∧ ids (close br).1 = [] :=
+  close_releases br hc
 
 end HttpBody
